@@ -168,12 +168,17 @@ def run(chk):
                                      "image_exact": cov.get("image-exact", 0), "image_sampled": cov.get("image-sampled", 0)}
     chk.extra["answers_indefinite"] = cov.get("answer-indefinite", 0)
     chk.extra["not_judged"] = cov.get("not-judged", 0)
+    chk.extra["not_owned"] = {k[10:]: v for k, v in sorted(cov.items()) if k.startswith("not-owned:")}
     chk.extra["traces_validated_against_impl"] = stat.get("cases", 0)
     for f in res:
         if f.verdict == "UNDECIDED":
             chk.undecided += 1
             continue
         site, kind = site_of(f)
+        if "[grid-maxmin]" in f.detail:
+            site, kind = "Grid::max_min", "via " + site + " " + kind
+        if "[not-idempotent]" in f.detail:
+            kind = "reduce-not-idempotent"
         info = {"site": site, "kind": kind, "policy_pair": byid.get(f.case, ["case ? ? ?"])[0].split(" ")[2:4], "detail": f.detail}
         if f.kind == "judge/syntax":
             chk.broken.append(("judge-syntax", f.line + " : " + f.detail)); continue
